@@ -185,7 +185,30 @@ def line(name, w, values=(0, 1)):
         d.update(dict(zip(used, combo)))
         inputs.append(d)
     return {"name": name, "spec": w, "model": json.dumps(r_workflow(w)), "inputs": inputs,
-            "nodes": count_nodes(w)}
+            "nodes": count_nodes(w), "clock": clock_of(w)}
+
+
+def limits_of(obj, acc):
+    if isinstance(obj, dict):
+        if "secs" in obj and "on" in obj:
+            acc.add(obj["secs"])
+        for v in obj.values():
+            limits_of(v, acc)
+    elif isinstance(obj, list):
+        for v in obj:
+            limits_of(v, acc)
+    return acc
+
+
+def clock_of(w):
+    """the clock moves explored for a model: steps of 1 s and jumps to just before each limit, on the
+    grid {0, 1, L-1, L, L+1 : L a limit} (the same in TLC's configuration and in the harness)"""
+    lim = sorted(limits_of(w, set()))
+    if not lim:
+        return {"adv": [], "grid": [0]}
+    adv = sorted({1} | {l - 1 for l in lim if l > 1})
+    grid = sorted({0, 1} | {x for l in lim for x in (l - 1, l, l + 1)})
+    return {"adv": adv, "grid": grid}
 
 
 # ----------------------------------------------------------------------------------------
@@ -269,6 +292,46 @@ def hand():
         step("s1", acts=[act("a1", uses="bad")], catches=[catch(NIL, [step("c1")])]),
         step("s2"),
     ])))
+    return out
+
+
+def timed():
+    """models with timeout rules (C19)"""
+    out = []
+    tmsg = lambda i: step(f"t{i}", acts=[act(f"tm{i}", uses="msg")])
+    out.append(line("t_act_one", workflow("m", [
+        step("s1", acts=[act("a1", timeouts=[timeout(2, [tmsg(1)])])]),
+        step("s2"),
+    ])))
+    out.append(line("t_act_two_rules", workflow("m", [
+        step("s1", acts=[act("a1", timeouts=[timeout(2, [tmsg(1)]), timeout(3, [tmsg(2)])])]),
+    ])))
+    out.append(line("t_step_rule", workflow("m", [
+        step("s1", acts=[act("a1"), act("a2")], timeouts=[timeout(2, [step("t1")])]),
+        step("s2", acts=[act("a3")]),
+    ])))
+    out.append(line("t_two_acts", workflow("m", [
+        step("s1", acts=[act("a1", timeouts=[timeout(2, [step("t1", acts=[act("ta1")])])]),
+                         act("a2", timeouts=[timeout(3, [step("t2")])])]),
+    ])))
+    out.append(line("t_branches", workflow("m", [
+        step("s1", branches=[
+            branch("b1", cond=A, steps=[step("s11", acts=[act("a1", timeouts=[timeout(2, [step("t1")])])])]),
+            branch("b2", els=True, steps=[step("s21", acts=[act("a2", timeouts=[timeout(3, [step("t2")])])])]),
+        ]),
+    ])))
+    out.append(line("t_empty_rule", workflow("m", [
+        step("s1", acts=[act("a1", timeouts=[timeout(2, [])])]),
+    ])))
+    return out
+
+
+def timedunits():
+    out = []
+    for unit, n in (("m", 1), ("h", 1), ("d", 1), ("s", 90)):
+        out.append(line(f"t_unit_{unit}", workflow("m", [
+            step("s1", acts=[act("a1", timeouts=[timeout(n, [step("t1")], unit=unit)])]),
+        ])))
     return out
 
 
@@ -424,6 +487,9 @@ SEQ_NAMES = {"two_acts", "catch_act", "catch_step_two", "catch_two_irq", "catch_
 
 FAMILIES = {
     "hand": lambda a: hand(),
+    "timed": lambda a: timed(),
+    "timedunits": lambda a: timedunits(),
+    "timedsmall": lambda a: [ln for ln in timed() if ln["name"] not in ("t_branches", "t_two_acts")],
     # the hand-written models without parallel interrupt branches (cheap with a larger client budget)
     "handseq": lambda a: [ln for ln in hand() if ln["name"] in SEQ_NAMES],
     "core6": lambda a: family_core(6, {"max_steps": 2, "depth": 1, "max_acts": 2}, a.get("limit"), a.get("seed", 0)),
